@@ -106,6 +106,13 @@ var overlapStages = map[string]func() intOp{
 	"TapWithContext":            func() intOp { return ro.Tap(func(int) {}, func(error) {}, func() {}) },
 	"ScanIWithContext":          func() intOp { return ro.Scan(func(a, v int) int { return a + v }, 0) },
 	"Skip":                      func() intOp { return ro.Skip[int](1) },
+	// parameter corners (row name # variant): an operator must not take a short cut that hands its own non-locking
+	// subscriber upstream when it is called with nothing to do
+	"EndWith":     func() intOp { return ro.EndWith(8) },
+	"EndWith#0":   func() intOp { return ro.EndWith[int]() },
+	"StartWith#0": func() intOp { return ro.StartWith[int]() },
+	"Skip#0":      func() intOp { return ro.Skip[int](0) },
+	"Take":        func() intOp { return ro.Take[int](1 << 30) },
 }
 
 func runOverlapCase(c *Case) string {
